@@ -13,6 +13,7 @@ literally the property's wording:
 import Mathlib.GroupTheory.SpecificGroups.Cyclic
 import Mathlib.GroupTheory.OrderOfElement
 import Mathlib.Algebra.Group.Basic
+import RelicVerif.Lemmas.PcValid
 
 namespace Relic.Props.C12
 
